@@ -17,6 +17,7 @@
             crule = ((back ...) (input ...) (look ...) recs)
        8: (cov (cov ...) (cov ...) (g ...))
      run     = (0 script_tag opt lang ((tag opt alt) ...) num_glyphs)        gsub::apply, Features::Custom
+             | (2 script_tag opt lang mask_bits num_glyphs)                  gsub::apply, Features::Mask
              | (1 lookup_index tag opt alt start length)                     gsub_apply_lookup
      glyphs  = ((id (char ...) pos opt origin lig dup vert rest) ...)
    output = ok:G,G,...[|length]  with G = id:c.c.c:pos:origin:LDV:rest   |  err:E  |  panic *)
@@ -160,6 +161,8 @@ let run (input : string) : string =
      | L [I k; I script; lang; feats; I ng] when zi k = 0 ->
        let feats = List.map (function L [I tg; alt] -> (tg, opt int_ alt) | _ -> failwith "feat") (list_ feats) in
        outcome_to_string glyphs_to_string (gsub_apply_custom m lay gd script (opt int_ lang) feats ng gs)
+     | L [I k; I script; lang; I mask; I ng] when zi k = 2 ->
+       outcome_to_string glyphs_to_string (gsub_apply_default m lay gd script (opt int_ lang) mask ng gs)
      | L [I k; I li; I tg; alt; I start; I length] when zi k = 1 ->
        outcome_to_string (fun (gs', l) -> glyphs_to_string gs' ^ "|" ^ z_to_string l)
          (gsub_apply_lookup m lay.lt_lookups gd li tg (opt int_ alt) gs start length)
@@ -178,6 +181,7 @@ let tag (input : string) (out : string) : string =
             (match lk with
              | L [L ls] -> (match List.nth_opt ls (zi li) with Some (L [_; _; _; I ty; _]) -> "L" ^ string_of_int (zi ty) | _ -> "Lx")
              | _ -> "L-")
+          | L (I k :: _) when zi k = 2 -> "M"
           | _ -> "A") in
       let ids_in = String.concat " " (List.map (function L (I id :: _) -> z_to_string id | _ -> "?") gl) in
       let res =
@@ -215,7 +219,7 @@ let scope_of (input : string) : scope =
     let (_, tree) = split_input input in
     match tree with
     | L [_; _; L (I k :: rest); L gl] ->
-      if zi k = 0 then Whole
+      if zi k = 0 || zi k = 2 then Whole
       else (match rest with
           | [_; _; _; I start; I length] ->
             (match z_to_int_opt start, z_to_int_opt length with
